@@ -57,6 +57,7 @@ type MinerS struct {
 	Account     string `json:"account"` // hex bytes
 	ApplyHeight uint64 `json:"applyHeight"`
 	Status      byte   `json:"status"`
+	applied     bool   // not part of the parent state: registered by a miner-apply transaction of the block
 }
 type CodeS struct {
 	Addr string `json:"addr"`
@@ -588,6 +589,27 @@ func txTokens(r *hx.Rng, x TxS, watch map[common.Address]bool) string {
 		}
 		return sb.String() + " r " + amt + " " + hx.Hex(common.FromHex(d.MinerId))
 	}
+	if x.Type == types.TransactionTypeMinerApply || x.Type == types.TransactionTypeMinerChangeAccount {
+		var m types.Miner
+		if err := json.Unmarshal([]byte(x.Data), &m); err != nil {
+			return sb.String() + " j " + hx.Hex([]byte(x.Data))
+		}
+		acct := "-"
+		if len(m.Account) > 0 {
+			acct = a20(common.BytesToAddress(m.Account))
+			watch[common.BytesToAddress(m.Account)] = true
+		}
+		if x.Type == types.TransactionTypeMinerChangeAccount {
+			return sb.String() + " c " + hx.Hex(m.Id) + " " + acct
+		}
+		b := func(v []byte) int {
+			if utility.IsEmptyByteSlice(v) {
+				return 0
+			}
+			return 1
+		}
+		return sb.String() + fmt.Sprintf(" p %s %d %d %d %d %s", hx.Hex(m.Id), m.Type, m.Stake, b(m.PublicKey), b(m.VrfPublicKey), acct)
+	}
 	if x.Type == types.TransactionTypeMinerAdd {
 		var m types.Miner
 		if err := json.Unmarshal([]byte(x.Data), &m); err != nil {
@@ -647,6 +669,30 @@ func sortedEsc(m map[escKey]bool) []escKey {
 	return l
 }
 
+// appliedMiners: the (id, type) pairs the block's miner-apply transactions try to register
+func appliedMiners(sc *Scenario) []MinerS {
+	var res []MinerS
+	seen := map[string]bool{}
+	for _, m := range sc.Miners {
+		seen[m.Id+string(rune(m.Type))] = true
+	}
+	for _, x := range sc.Txs {
+		if x.Type != types.TransactionTypeMinerApply {
+			continue
+		}
+		var m types.Miner
+		if json.Unmarshal([]byte(x.Data), &m) != nil || len(m.Id) == 0 || m.Type > 1 {
+			continue
+		}
+		k := hex.EncodeToString(m.Id) + string(rune(m.Type))
+		if !seen[k] {
+			seen[k] = true
+			res = append(res, MinerS{Id: hex.EncodeToString(m.Id), Type: m.Type, applied: true})
+		}
+	}
+	return res
+}
+
 func minerDB(t byte) common.Address {
 	if t == common.MinerTypeProposer {
 		return common.ProposerDBAddress
@@ -664,7 +710,15 @@ func dump(st *account.AccountDB, watch []common.Address, wesc []escKey, miners [
 		e = append(e, fmt.Sprintf("%d:%s:%s", k.h, a20(k.id), v.String()))
 	}
 	// registry as stored: id key (alive), stake key, account key, status key (else the JSON status)
-	for _, mi := range miners {
+	sorted := append([]MinerS{}, miners...)
+	sort.SliceStable(sorted, func(i, j int) bool {
+		a, b := new(big.Int).SetBytes(unhex(sorted[i].Id)), new(big.Int).SetBytes(unhex(sorted[j].Id))
+		if c := a.Cmp(b); c != 0 {
+			return c < 0
+		}
+		return sorted[i].Type < sorted[j].Type
+	})
+	for _, mi := range sorted {
 		db, id := minerDB(mi.Type), unhex(mi.Id)
 		k1 := common.Sha256(id)
 		k2 := common.Sha256(k1)
@@ -681,6 +735,9 @@ func dump(st *account.AccountDB, watch []common.Address, wesc []escKey, miners [
 		status := mi.Status
 		if b := st.GetData(db, k3); len(b) == 1 {
 			status = b[0]
+		}
+		if mi.applied && alive == 0 {
+			continue // a miner this block tried to register: nothing stored (or stored and removed again)
 		}
 		m = append(m, fmt.Sprintf("%s:%d:%d:%s:%d:%d", new(big.Int).SetBytes(id).String(), mi.Type, stake, acct, status, alive))
 	}
@@ -836,7 +893,8 @@ func emitScenario(out *hx.Out, r *hx.Rng, sc *Scenario) {
 		}
 		for _, x := range o.receipts {
 			msg := hx.Hex([]byte(x.Msg))
-			if t := typeOf[x.TxHash]; t == types.TransactionTypeMinerRefund || t == types.TransactionTypeMinerAdd {
+			if t := typeOf[x.TxHash]; t == types.TransactionTypeMinerRefund || t == types.TransactionTypeMinerAdd ||
+				t == types.TransactionTypeMinerApply || t == types.TransactionTypeMinerChangeAccount {
 				msg = "-" // message text of miner transactions is not modelled
 			}
 			rc = append(rc, fmt.Sprintf("%s:%d:%s", hex.EncodeToString(x.TxHash.Bytes()), x.Status, msg))
@@ -849,7 +907,7 @@ func emitScenario(out *hx.Out, r *hx.Rng, sc *Scenario) {
 		fresh, _ := account.NewAccountDB(nr, t)
 		df := fmt.Sprintf(" df=%d:%d", utility.ByteToUInt64(fresh.GetData(common.DifficultyAddress, castorBytes(sc))),
 			utility.ByteToUInt64(fresh.GetData(common.DifficultyAddress, common.TotalWorkingMiners)))
-		return "ev=" + strings.Join(ev, ",") + " rc=" + strings.Join(rc, ",") + " " + dump(fresh, wl, el, sc.Miners) + df
+		return "ev=" + strings.Join(ev, ",") + " rc=" + strings.Join(rc, ",") + " " + dump(fresh, wl, el, append(append([]MinerS{}, sc.Miners...), appliedMiners(sc)...)) + df
 	})
 }
 
@@ -1296,6 +1354,63 @@ func genScenario(r *hx.Rng, i int, allowOpaque bool) *Scenario {
 		}
 		sc.Txs = append(sc.Txs, x)
 	}
+	// miner apply (fresh ids, optional fields absent at random, stakes around the minimum) and
+	// change-account transactions (own / foreign sender, free / occupied / absent target account)
+	for k := r.Pick(0, 0, 1, 1, 2, 3); k > 0 && len(sc.Accounts) > 0 && len(sc.Txs) < 12; k-- {
+		src := sc.Accounts[r.Intn(len(sc.Accounts))].Addr
+		typ := byte(r.Pick(0, 0, 1, 1, 2))
+		min := uint64(400)
+		if typ == 1 {
+			min = 2000
+		}
+		m := types.Miner{Id: freshMinerId(r), Type: typ, Stake: min + uint64(r.Pick(0, 0, 1, 100)) - uint64(r.Pick(0, 0, 0, 1))}
+		if r.Chance(4, 5) {
+			m.PublicKey = []byte{1, byte(r.Intn(256))}
+		}
+		if r.Chance(4, 5) {
+			m.VrfPublicKey = []byte{2, byte(1 + r.Intn(255))}
+		}
+		if r.Chance(1, 2) {
+			m.Account = unhex(poolAddrs[r.Intn(len(poolAddrs))])
+		}
+		d, _ := json.Marshal(m)
+		x := TxS{Source: "0x" + src, Type: 2, Hash: hex.EncodeToString(r.Bytes(32)), Data: string(d)}
+		if r.Chance(1, 15) {
+			x.Data = "{\"id\":"
+		}
+		sc.Txs = append(sc.Txs, x)
+	}
+	for k := r.Pick(0, 0, 1, 2); k > 0 && len(sc.Miners) > 0 && len(sc.Txs) < 12; k-- {
+		mi := sc.Miners[r.Intn(len(sc.Miners))]
+		src := mi.Account
+		if r.Chance(1, 5) {
+			src = poolAddrs[r.Intn(len(poolAddrs))]
+		}
+		m := types.Miner{Id: unhex(mi.Id)}
+		switch r.Intn(6) {
+		case 0:
+			m.Account = unhex(mi.Account) // no change
+		case 1: // absent
+		case 2:
+			m.Account = unhex(sc.Miners[r.Intn(len(sc.Miners))].Account) // probably occupied
+		default:
+			m.Account = unhex(evmPool[6+r.Intn(8)]) // a free one
+		}
+		if r.Chance(1, 10) {
+			m.Id = []byte{0xde, 0xad}
+		}
+		d, _ := json.Marshal(m)
+		funded := false
+		for _, a := range sc.Accounts {
+			if a.Addr == src {
+				funded = true
+			}
+		}
+		if !funded {
+			sc.Accounts = append(sc.Accounts, Acct{src, e18(2).String(), 0})
+		}
+		sc.Txs = append(sc.Txs, TxS{Source: "0x" + src, Type: 6, Hash: hex.EncodeToString(r.Bytes(32)), Data: string(d)})
+	}
 	// receipts and observed EVM steps are matched to transactions by hash: keep hashes unique
 	seenHash := map[string]bool{}
 	for i := range sc.Txs {
@@ -1566,7 +1681,7 @@ func genHistorical(r *hx.Rng, i int, interpretedOnly bool) *Scenario {
 		sc.Miners, sc.Group, sc.Castor = nil, nil, ""
 		var keep []TxS
 		for _, x := range sc.Txs {
-			if x.Type != 4 && x.Type != 5 && x.Type != 200 {
+			if x.Type != 2 && x.Type != 4 && x.Type != 5 && x.Type != 6 && x.Type != 200 {
 				keep = append(keep, x)
 			}
 		}
